@@ -86,7 +86,7 @@ func c19RunRaceBin(dir string, limit time.Duration, args ...string) (*c19RaceRes
 
 func c19Race(c *vx.Ctx, stopAt time.Time) {
 	p := c.Part("race")
-	p.Incomplete("by construction: the Go scheduler picks the interleavings of the 3 goroutines and of the pool's own goroutines; sequences are enumerated, schedules are sampled")
+	p.Sampling("by construction: the Go scheduler picks the interleavings of the 3 goroutines and of the pool's own goroutines; sequences are enumerated, schedules are sampled")
 	var found []c19RaceViol
 	dir, err := os.MkdirTemp("/dev/shm", "vq-c19-race-")
 	if err != nil {
